@@ -383,6 +383,47 @@ def hard_pmap(fn, items, soft=4.0, hard=12.0, procs=8):
 
 
 # ----------------------------------------------------------------------------------------------
+# documented behaviour outside the modelled domain: stated directly on the implementation
+# (program, inputs, flag, expected stdout or None = "any output, but no exception", class, what the document says)
+# ----------------------------------------------------------------------------------------------
+DOCUMENTED = [
+    ("λ0;[1|2]", [], "", "2\n", "C01:function-valued-condition",
+     "Structures.md (If Statement): a function popped as the condition is called first, repeatedly, and its result is tested: λ0; is falsey"),
+    ("λ3;(n,)", [], "", "1\n2\n3\n", "C01:function-valued-condition",
+     "Structures.md (For Loop): a function popped as the iterable is called first and its result iterated: λ3; gives the range 1..3"),
+    ("@f:*|W;3 1 2 3@f;", [], "", None, "C01:star-parameter",
+     "Structures.md (Function Parameters): `*` is a parameter form; calling such a function must not fail before its body runs"),
+]
+
+
+def documented_expectations(env):
+    """Each entry is the property as the documents state it, on the implementation alone.  A difference is a
+    failure of the property; it is raised through env.fail when known_findings.json lists its class (-> a
+    KNOWN-FINDING line) or when it is NEW behaviour (the entry used to pass); an unregistered, long-standing
+    difference is written to the evidence as a proposed finding instead (the integrator decides: fix or list)."""
+    res = hard_pmap(impl_run, [(s, i, f) for s, i, f, _, _, _ in DOCUMENTED], soft=3, hard=8, procs=3)
+    registered = {k.get("class") for k in env.known} | {c for k in env.known for c in k.get("classes", [])}
+    proposed = []
+    for (src, inputs, fl, expected, cls, doc), (st, r) in zip(DOCUMENTED, res):
+        if st != "ok":
+            observed = {"status": st}
+            ok = False
+        else:
+            code, stack, out, err, _ = r
+            observed = {"error": err, "stdout": out}
+            ok = err is None and (expected is None or out == expected)
+        if ok:
+            continue
+        inp = {"program": src, "inputs": inputs, "flags": fl}
+        if cls in registered:
+            env.fail(inp, f"{doc}; observed {observed}", cls=cls)
+        else:
+            proposed.append({"class": cls, "input": inp, "documented": doc, "expected_stdout": expected, "observed": observed})
+    env.note("proposed_findings_not_in_known_findings", proposed)
+    env.count(len(DOCUMENTED), [])
+
+
+# ----------------------------------------------------------------------------------------------
 # the check
 # ----------------------------------------------------------------------------------------------
 INPUT_SETS = [[], ["3"], ["2", "5"], ["[1,2,3]"], ["4", "[5,6]"], ["0"], ["7", "1", "2"], ["[[1,2],3]", "2"]]
@@ -502,6 +543,7 @@ def run(env):
     if unevaluated > max(3, len(cases) // 100):
         env.proof_broken("too many correspondence cases could not be evaluated in Coq", f"{unevaluated} of {len(cases)}; {[l[2][-300:] for l in logs][:3]}")
     env.count(len(cases), nontrivial)
+    documented_expectations(env)
     # exact text of the transpiler on the same programs
     transcorr.check(env, SEEDS + generated[: env.budget(500, 3000)], name="c01text", shard=env.budget(125, 300))
     env.note("runs", {"total": len(items), "compared": len(cases), "skipped": skipped, "coq_unevaluated": unevaluated})
